@@ -3,6 +3,7 @@ C08 — helper lemmas: loop invariants of the policy loops.
 Convention: a loop over `rest` with index `pre.length` runs on the pool `pre ++ rest`.
 -/
 import CaddyModel.C08.Spec
+import CaddyModel.C08.Caddyfile
 
 namespace CaddyModel.C08
 
@@ -1839,5 +1840,66 @@ theorem mkPool_avail (c : PCfg) : ∀ (us : List PUp) (ls fs : List Nat) (u : Up
     rcases h with h | h
     · subst h; exact ⟨rfl, rfl, rfl⟩
     · exact mkPool_avail c us ls fs u h
+
+/-! ### Caddyfile: the arguments on a line -/
+
+theorem remainingArgs_same_line (l nest : Nat) : ∀ (args : List Bytes) (pre : List Tok) (p : Tok) (fuel : Nat),
+    (∀ a ∈ args, a ≠ lbrace) → p.line = l → args.length < fuel →
+    (remainingArgs fuel ⟨(pre ++ [p]) ++ args.map (fun a => ⟨a, l⟩), pre.length + 1, nest⟩).1 = args
+  | [], pre, p, fuel, _, _, hf => by
+    cases fuel with
+    | zero => omega
+    | succ fuel =>
+      unfold remainingArgs
+      have h1 : ((pre ++ [p]) ++ ([] : List Bytes).map (fun a => (⟨a, l⟩ : Tok)))[pre.length + 1]? = none := by simp
+      simp [Disp.nextArg, Disp.nextOnSameLine]
+  | a :: args, pre, p, fuel, hb, hl, hf => by
+    cases fuel with
+    | zero => simp at hf
+    | succ fuel =>
+      have ha : a ≠ lbrace := hb a (List.mem_cons_self ..)
+      have h0 : ((pre ++ [p]) ++ (a :: args).map (fun a => (⟨a, l⟩ : Tok)))[pre.length]? = some p := by simp
+      have h1 : ((pre ++ [p]) ++ (a :: args).map (fun a => (⟨a, l⟩ : Tok)))[pre.length + 1]? = some ⟨a, l⟩ := by
+        rw [List.getElem?_append_right (by simp)]; simp
+      have hstep : (Disp.mk ((pre ++ [p]) ++ (a :: args).map (fun a => (⟨a, l⟩ : Tok))) (pre.length + 1) nest).nextArg
+          = (true, ⟨(pre ++ [p]) ++ (a :: args).map (fun a => (⟨a, l⟩ : Tok)), pre.length + 2, nest⟩) := by
+        simp [Disp.nextArg, Disp.nextOnSameLine, hl, Disp.val, ha]
+      unfold remainingArgs
+      rw [hstep]
+      simp only [if_true]
+      have hval : (Disp.mk ((pre ++ [p]) ++ (a :: args).map (fun a => (⟨a, l⟩ : Tok))) (pre.length + 2) nest).val = a := by
+        simp [Disp.val]
+      rw [hval]
+      have hshape : (pre ++ [p]) ++ (a :: args).map (fun a => (⟨a, l⟩ : Tok))
+          = ((pre ++ [p]) ++ [⟨a, l⟩]) ++ args.map (fun a => (⟨a, l⟩ : Tok)) := by simp
+      have ih := remainingArgs_same_line l nest args (pre ++ [p]) ⟨a, l⟩ fuel
+        (fun x hx => hb x (List.mem_cons_of_mem _ hx)) rfl (by simp at hf; omega)
+      rw [hshape]
+      have hlen : (pre ++ [p]).length + 1 = pre.length + 2 := by simp
+      rw [hlen] at ih
+      rw [ih]
+
+theorem weightsOf_spec : ∀ (args : List Bytes) (ws : List Int), weightsOf args = some ws →
+    ws.length = args.length ∧ ∀ (i : Nat) (a : Bytes), args[i]? = some a → ∃ w, ws[i]? = some w ∧ C16.atoi a = some w ∧ 0 ≤ w
+  | [], ws, h => by simp [weightsOf] at h; subst h; simp
+  | a :: rest, ws, h => by
+    unfold weightsOf at h
+    cases ha : C16.atoi a with
+    | none => simp [ha] at h
+    | some v =>
+      cases hr : weightsOf rest with
+      | none => simp [ha, hr] at h
+      | some ws' =>
+        simp only [ha, hr] at h
+        split at h
+        · cases h
+        · rename_i hv
+          cases h
+          obtain ⟨h1, h2⟩ := weightsOf_spec rest ws' hr
+          refine ⟨by simp [h1], ?_⟩
+          intro i x hx
+          cases i with
+          | zero => simp at hx; subst hx; exact ⟨v, rfl, ha, by omega⟩
+          | succ i => simpa using h2 i x (by simpa using hx)
 
 end CaddyModel.C08
